@@ -1,5 +1,6 @@
 (* Ops.v — operation sequences on a store of engines (property C13): set inputs, process, restart, copy and switch,
-   edit a parameter, toggle a flag.  Engines are VALUES here: `copy` is the identity on values; that the Python object
+   edit a parameter, toggle a flag,
+   remove the rule blocks / the rules of a block, assign an output's state by hand.  Engines are VALUES here: `copy` is the identity on values; that the Python object
    graphs of an engine and its deepcopy share nothing is checked by the correspondence, not by a theorem. *)
 From Coq Require Import ZArith Bool List String.
 From VF Require Import Num GenNorm GenHedge GenTerm Core Cascade Consequent Engine.
@@ -30,6 +31,14 @@ Section Ops.
        ov_value := if ov_lock_range ov then clip (ov_min ov) (ov_max ov) nan else nan;
        ov_previous := nan; ov_fuzzy := [] |}.
 
+  (* state assigned by hand: value through the clipping setter, previous value directly, one more activated term *)
+  Definition ov_with_state (ov : output_var T) (v p : T) (t : term T) (d : T) : output_var T :=
+    {| ov_name := ov_name ov; ov_enabled := ov_enabled ov; ov_min := ov_min ov; ov_max := ov_max ov;
+       ov_lock_range := ov_lock_range ov; ov_lock_previous := ov_lock_previous ov; ov_default := ov_default ov;
+       ov_aggregation := ov_aggregation ov; ov_defuzzifier := ov_defuzzifier ov; ov_terms := ov_terms ov;
+       ov_value := if ov_lock_range ov then clip (ov_min ov) (ov_max ov) v else v;
+       ov_previous := p; ov_fuzzy := (ov_fuzzy ov ++ [{| a_term := t; a_degree := d; a_implication := None |}])%list |}.
+
   Definition block_deactivated (b : block T) : block T :=
     {| b_name := b_name b; b_enabled := b_enabled b; b_conjunction := b_conjunction b; b_disjunction := b_disjunction b;
        b_implication := b_implication b; b_activation := b_activation b; b_rules := map (@rule_deactivated T N) (b_rules b) |}.
@@ -41,6 +50,9 @@ Section Ops.
 
   (* the state the constructors build: values nan (NOT through the clipping setter for previous), degrees 0 *)
   Definition fresh (e : engine T) : engine T := restart e.
+
+  Definition with_blocks (e : engine T) (bs : list (block T)) : engine T :=
+    {| e_name := e_name e; e_inputs := e_inputs e; e_outputs := e_outputs e; e_blocks := bs |}.
 
   Definition rule_edit (r : rule T) (enabled : bool) (w : T) : rule T :=
     {| r_enabled := enabled; r_weight := w; r_antecedent := r_antecedent r; r_consequent := r_consequent r;
@@ -54,7 +66,12 @@ Section Ops.
     | OSwitch (k : nat)
     | OEditRule (bi ri : nat) (enabled : bool) (w : T)       (* rule.enabled / rule.weight of the current engine *)
     | OEditOutput (oi : nat) (enabled : bool) (dflt : T)      (* output.enabled / default_value *)
-    | OEditBlock (bi : nat) (enabled : bool).
+    | OEditBlock (bi : nat) (enabled : bool)
+    | ORemoveBlocks                                           (* engine.rule_blocks = []: an engine without rule blocks *)
+    | ODropRules (bi : nat)                                   (* rule_blocks[bi].rules = []: a block with zero rules *)
+    | OSetOutputState (oi : nat) (v prev : T) (ti : nat) (d : T).
+      (* by hand: output.value = v (clipping setter), output.previous_value = prev,
+         output.fuzzy.terms.append(Activated(output.terms[ti], d)) *)
 
   Definition store : Type := (list (engine T) * nat)%type.
 
@@ -91,6 +108,25 @@ Section Ops.
                                           e_blocks := set_nth bi {| b_name := b_name b; b_enabled := en; b_conjunction := b_conjunction b;
                                             b_disjunction := b_disjunction b; b_implication := b_implication b;
                                             b_activation := b_activation b; b_rules := b_rules b |} (e_blocks e) |}
+                        end)
+    | ORemoveBlocks =>
+        upd s (fun e => Ok (with_blocks e []))
+    | ODropRules bi =>
+        upd s (fun e => match nth_error (e_blocks e) bi with
+                        | None => Err EInternal
+                        | Some b => Ok {| e_name := e_name e; e_inputs := e_inputs e; e_outputs := e_outputs e;
+                                          e_blocks := set_nth bi {| b_name := b_name b; b_enabled := b_enabled b; b_conjunction := b_conjunction b;
+                                            b_disjunction := b_disjunction b; b_implication := b_implication b;
+                                            b_activation := b_activation b; b_rules := [] |} (e_blocks e) |}
+                        end)
+    | OSetOutputState oi v p ti d =>
+        upd s (fun e => match nth_error (e_outputs e) oi with
+                        | None => Err EInternal
+                        | Some ov =>
+                            match nth_error (ov_terms ov) ti with
+                            | None => Err EInternal
+                            | Some t => Ok (with_outputs e (set_nth oi (ov_with_state ov v p t d) (e_outputs e)))
+                            end
                         end)
     end.
 
